@@ -40,6 +40,8 @@ CURVE_UNCOVERED = [
     "the log-cubic (spline) interpolator and the null interpolator",
 ]
 
+SPLINE_UNCOVERED = []
+
 CHECKS = {
     "C04": {
         "units": ["dateroll"],
@@ -144,5 +146,14 @@ CHECKS = {
         "uncovered": CURVE_UNCOVERED + [
             "variable NAMING '<curve id><i>' (string formatting in get_variable_tags) is outside Verus",
         ],
+    },
+    "C14": {
+        "units": ["splines"],
+        "level": "proof",
+        "assumptions": [
+            "R6: f64 modelled by mathematical reals (R64)",
+            "oracle: the Cox-de Boor recursion with right-continuous pieces, 0/0 := 0 and the right-end-point rule, and de Boor's derivative recursion, as spec functions bsp / dsp in contracts/splines.vx; that dsp IS the derivative of the piecewise polynomial is de Boor's theorem (taken as the oracle, not re-derived from limits)",
+        ],
+        "uncovered": SPLINE_UNCOVERED,
     },
 }
